@@ -173,6 +173,22 @@ def run(tier: str) -> int:
         return [(g, roots, {'kind': 'raise-under-coverage'})]
     ps.append(Profile('covraise', cov_grams, lambda g, root, tier: [Config(root, 1, 'o', 'lf_crlf', 0, uw, 0, 0, 0, 1) for uw in (1, 0)],
                       profiles.inputs_exhaustive(4, 5, cap_q=200, cap_t=800), ORACLES, per_tu=1))
+    def nested_msg_grams(rng, tier):
+        # the rule handed to the try_catch_*_raise_nested family carries a custom error_message: normal< Rule >::raise_nested has a branch of
+        # its own for such rules (as has raise)
+        g = Grammar('nestmsg0')
+        a_, b_, c_ = (lambda: P('one', C(97))), (lambda: P('one', C(98))), (lambda: P('one', C(99)))
+        inner = g.rule(P('seq', a_(), P('must', b_())))
+        inner2 = g.rule(P('sor', c_(), P('seq', a_(), P('raise', c_()))))
+        tops = [P('try_catch_raise_nested', inner), P('try_catch_std_raise_nested', inner), P('try_catch_any_raise_nested', inner2),
+                P('seq', P('opt', c_()), P('try_catch_raise_nested', inner2)), P('try_catch_raise_nested', P('try_catch_raise_nested', inner)),
+                P('must', inner2), P('sor', P('try_catch_return_false', inner), P('any'))]
+        roots = [g.rule(t).id for t in tops]
+        g.resolve()
+        g.messages = {inner.id: "custom message of the inner rule", inner2.id: "custom message of the second inner rule", roots[0]: "custom message of the try_catch rule"}
+        return [(g, roots, {'kind': 'nested-with-message'})]
+    ps.append(Profile('nestmsg', nested_msg_grams, lambda g, root, tier: [Config(root, 1, m, 'lf_crlf', 0, uw, 0) for (m, uw) in (('r', 1), ('o', 0))],
+                      profiles.inputs_exhaustive(4, 5, cap_q=200, cap_t=800), ORACLES, per_tu=1))
     from .c05_mustif import oracle_mustif
     ps.append(profiles.mustif_profile('mi', 14, 70, [('must_if', oracle_mustif), ('exception', oracle_exception)], per_tu=2))
     return engine.run_engine('C05', tier, ['PegtlVerif.Props.C05'], ps)
